@@ -50,6 +50,8 @@ def pipe_facts(prog, repo):
         if m:
             cap_arg = m.group(1)
     facts['capacity_is_num_threads'] = False
+    # the result channel is unbounded (`mpsc::channel()`): modelled with a capacity no run inside the bound can fill
+    facts['channel_unbounded'] = any(re.search(r'mpsc::channel::<', t) for t in txt.values()) and cap_arg is None
     if cap_arg:
         for b in new.blocks.values():
             if b.cleanup:
@@ -84,6 +86,77 @@ def pipe_facts(prog, repo):
         facts['hook_exits'] = any(re.search(r'(?:process::)?\bexit\(', b.term.text or '') for b in hook[0].blocks.values() if not b.cleanup)
     facts['counter_starts_at_zero'] = any(re.search(r'Atomic(?:Usize)?::(?:<usize>::)?new\(const 0_usize\)', t) for t in txt.values())
     return facts
+
+
+def _duration_ms(texts):
+    ms = None
+    for t in texts:
+        m = re.search(r'Duration::from_(secs|millis|micros)\(const (\d+)_u64\)', t)
+        if m:
+            v = int(m.group(2)) * {'secs': 1000.0, 'millis': 1.0, 'micros': 0.001}[m.group(1)]
+            ms = v if ms is None else max(ms, v)
+    return ms
+
+
+def consumer_facts(prog, repo, which='pipe'):
+    """How the consumer side (Iterator::next of Pipe / Buffered) receives: blocking recv (the model's consumer), or a
+    receive that can give up (recv_timeout / try_recv): then end of stream may be observed while senders are alive."""
+    pat = r'^impl<O> Iterator for Pipe<O>' if which == 'pipe' else r'^impl<T> Iterator for Buffered<T>'
+    line = impl_of(prog, pat, repo)
+    nx = [f for n, f in prog.functions.items() if ('loading.rs:%d:' % line) in n and n.endswith('>::next')]
+    if len(nx) != 1:
+        raise Unsupported('MIRBMC: consumer next() body not found')
+    nx[0].parse()
+    txt = [(b.term.text or '') for b in nx[0].blocks.values() if not b.cleanup]
+    calls = [t for t in txt if '(' in t and '->' in t]
+    out = {'recv': 'none', 'timeout_ms': None}
+    for t in calls:
+        if re.search(r'Receiver::<[^>]*>::recv\(', t):
+            out['recv'] = 'blocking'
+        elif re.search(r'Receiver::<[^>]*>::(recv_timeout|recv_deadline)\(', t):
+            out['recv'] = 'timeout'
+        elif re.search(r'Receiver::<[^>]*>::try_recv\(', t):
+            out['recv'] = 'nonblocking'
+    out['timeout_ms'] = _duration_ms(txt)
+    if out['recv'] == 'none':
+        raise Unsupported('MIRBMC: the consumer does not receive through Receiver::recv / recv_timeout / try_recv')
+    return out
+
+
+def spawn_facts(prog, repo):
+    """number of worker threads spawned by Pipe::new as a function of num_threads: the spawn loop iterates over the range
+    start..num_threads (start read from the MIR); anything else is outside the model"""
+    line = impl_of(prog, r'^impl<O> Pipe<O>', repo)
+    new = [f for n, f in prog.functions.items() if ('loading.rs:%d:' % line) in n and n.endswith('>::new')]
+    new[0].parse()
+    starts = []
+    for b in new[0].blocks.values():
+        if b.cleanup:
+            continue
+        for st in b.stmts:
+            m = re.search(r'Range::<(?:u8|usize)> \{ start: const (\d+)_(?:u8|usize), end: (?:move|copy) _\d+ \}', st.text or '')
+            if m:
+                starts.append(int(m.group(1)))
+            elif re.search(r'RangeInclusive::<(?:u8|usize)>|Range::<(?:u8|usize)> \{ start: (?!const)', st.text or ''):
+                starts.append(None)
+    if len(starts) != 1 or starts[0] is None:
+        raise Unsupported('MIRBMC: spawn loop of Pipe::new is not `for _ in <const>..num_threads`')
+    return {'spawn_start': starts[0]}
+
+
+def buffered_facts(prog, repo):
+    """channel of Buffered::new: sync_channel(buffer_size) / unbounded channel / something else"""
+    line = impl_of(prog, r'^impl<T> Buffered<T>', repo)
+    new = [f for n, f in prog.functions.items() if ('loading.rs:%d:' % line) in n and n.endswith('>::new')]
+    if len(new) != 1:
+        raise Unsupported('MIRBMC: Buffered::new body not found')
+    new[0].parse()
+    txt = [(b.term.text or '') for b in new[0].blocks.values() if not b.cleanup]
+    if any(re.search(r'sync_channel::<[^(]*>\((?:copy|move) _2\)', t) for t in txt):
+        return {'channel': 'buffer_size'}
+    if any(re.search(r'mpsc::channel::<', t) for t in txt):
+        return {'channel': 'unbounded'}
+    return {'channel': 'other'}
 
 
 def buffered_worker(prog, repo):
@@ -132,6 +205,7 @@ def _job(job):
                'build_s': round(build_s, 2), 'K': job['K'], 'W': job['W'], 'N': job['N'], 'cap': job['cap'],
                'steps': job['K'], 'block_instances': sysm.stats['block_instances'], 'visible_blocks': sysm.visible_blocks,
                'function': fn.name, 'orderings': sorted(tp.orderings)}
+        out.update({k: job[k] for k in ('lookahead_bound', 'drop_bound', 'buffer_size', 'num_threads', 'consumer_timeout_ms') if k in job})
         if mdl is not None:
             out['trace'] = sysm.trace(mdl)
             out['n'] = mdl.eval(n, model_completion=True).as_long()
